@@ -187,8 +187,40 @@ func c14Check(c c14Case) (fs []rep.Finding) {
 		q("NodeJSON", func() {
 			tx := bt.NewTx()
 			tx.AddOutput(&bt.Output{Satoshis: 1, LockingScript: bscript.NewFromBytes(raw)})
-			_, _ = json.Marshal(tx.NodeJSON())
-			_, _ = json.Marshal(tx.Outputs[0].NodeJSON())
+			jb, err1 := json.Marshal(tx.NodeJSON())
+			ob, err2 := json.Marshal(tx.Outputs[0].NodeJSON())
+			// the type and assembly the node-style document reports are the script's own
+			var doc struct {
+				Vout []struct {
+					ScriptPubKey struct {
+						Asm  string `json:"asm"`
+						Hex  string `json:"hex"`
+						Type string `json:"type"`
+					} `json:"scriptPubKey"`
+				} `json:"vout"`
+			}
+			var one struct {
+				ScriptPubKey struct {
+					Asm  string `json:"asm"`
+					Hex  string `json:"hex"`
+					Type string `json:"type"`
+				} `json:"scriptPubKey"`
+			}
+			wantAsm, aerr := bscript.NewFromBytes(append([]byte(nil), keep...)).ToASM()
+			if err1 == nil && json.Unmarshal(jb, &doc) == nil && len(doc.Vout) == 1 {
+				if doc.Vout[0].ScriptPubKey.Type != typ {
+					fs = append(fs, rep.F("NodeJSON|type-differs-from-ScriptType", fmt.Sprintf("node JSON reports type %q for a script whose ScriptType is %q", doc.Vout[0].ScriptPubKey.Type, typ)))
+				}
+				if aerr == nil && doc.Vout[0].ScriptPubKey.Asm != wantAsm {
+					fs = append(fs, rep.F("NodeJSON|asm-differs-from-ToASM", "node JSON assembly is not the script's ToASM rendering"))
+				}
+				if doc.Vout[0].ScriptPubKey.Hex != HB(keep).String() {
+					fs = append(fs, rep.F("NodeJSON|hex-differs", "node JSON hex is not the script"))
+				}
+			}
+			if err2 == nil && json.Unmarshal(ob, &one) == nil && one.ScriptPubKey.Type != typ {
+				fs = append(fs, rep.F("NodeJSON|type-differs-from-ScriptType", fmt.Sprintf("node JSON (output) reports type %q for a script whose ScriptType is %q", one.ScriptPubKey.Type, typ)))
+			}
 		})
 	}
 	if !bytes.Equal(keep, raw) {
@@ -274,7 +306,7 @@ func c14Templates() map[string][]byte {
 
 func init() {
 	p := register(&Prop{ID: "C14", Level: "exploration",
-		Rule: "exhaustive: every byte string of length<=2 (quick) / <=3 (thorough) and every string of length<=4 (quick) / <=5 (thorough) over a 24/40-symbol opcode+push alphabet; every standard template with every byte replaced by every value, every push replaced by 4c00/4d0000/4e00000000/OP_0/truncated push, every part removed, every token and every pair of tokens re-encoded (push through PUSHDATA1/2/4, one-byte opcode as a one-byte push); plus every bare m-of-n multisig with 1<=m<=n<=16 and its off-by-one neighbours; each through all inspection queries (and NodeJSON marshalling for templates and short strings). distinct_nontrivial = distinct (ScriptType, predicate vector, decodable) classes x script length observed"})
+		Rule: "exhaustive: every byte string of length<=2 (quick) / <=3 (thorough) and every string of length<=4 (quick) / <=5 (thorough) over a 24/40-symbol opcode+push alphabet; every standard template with every byte replaced by every value, every push replaced by 4c00/4d0000/4e00000000/OP_0/truncated push, every part removed, every token and every pair of tokens re-encoded (push through PUSHDATA1/2/4, one-byte opcode as a one-byte push); plus every bare m-of-n multisig with 1<=m<=n<=16 and its off-by-one neighbours; each through all inspection queries (and NodeJSON marshalling for templates and short strings, whose reported type, assembly and hex must be the script's own). distinct_nontrivial = distinct (ScriptType, predicate vector, decodable) classes x script length observed"})
 	sp := NewSpace(p, "bytes", c14Check)
 	p.Run = func(r *rep.Run, thorough bool) {
 		classify := func(c c14Case) []rep.Finding {
